@@ -1,7 +1,7 @@
 (** Proofs of the C12 o C01/C03 link. *)
 From Coq Require Import String.
 From WG Require Import Base.Prelude Codes.Codes Codes.Statements BV.Model BV.RefSel BV.Bits
-  BV.BitsFacts BV.Access BV.AccessStatements BV.AccessFacts BV.SelStatements BV.GreedyFacts BV.OffsetsStatements BV.OffsetsFacts
+  BV.BitsFacts BV.Access BV.AccessStatements BV.AccessFacts BV.SelStatements BV.GreedyFacts BV.ZuckFacts BV.OffsetsStatements BV.OffsetsFacts
   Flags.Props Flags.Statements Flags.PropsFacts Par.Splice Par.SpliceFacts
   Split.Model Split.Statements Split.SplitFacts Split.RangesFacts
   Links.LoadLinkStatements.
@@ -122,6 +122,29 @@ Proof.
   exact (link_load_seq leA stA fA textA g selA restA HwA HstA Hg HselA).
 Qed.
 
+Lemma depths_max_depth_ok m sel :
+  Forall (fun d => d <= m) (depths sel) -> max_depth_ok (Some m) sel = true.
+Proof.
+  intros H. unfold max_depth_ok. apply forallb_forall. intros d Hd.
+  rewrite Forall_forall in H. apply N.leb_le. exact (H d Hd).
+Qed.
+
+Theorem link_ra_fuel_greedy : S_link_ra_fuel_greedy.
+Proof.
+  intros le cs p g rest m x l Hok Hg Hm Hx sel.
+  apply ra_fuel; try assumption; [apply greedy_valid|].
+  rewrite Hm. apply depths_max_depth_ok. apply greedy_depth. exact Hm.
+Qed.
+
+Theorem link_ra_fuel_zuck : S_link_ra_fuel_zuck.
+Proof.
+  intros le cs p k g rest m x l Hok Hg Hm Hx sel.
+  apply ra_fuel; try assumption; [apply zuck_valid|].
+  rewrite Hm. apply depths_max_depth_ok. apply zuck_depth. exact Hm.
+Qed.
+
+Print Assumptions link_ra_fuel_greedy.
+Print Assumptions link_ra_fuel_zuck.
 Print Assumptions link_recompress_files.
 Print Assumptions link_load_files.
 Print Assumptions link_dcf_par_load.
